@@ -93,6 +93,44 @@ def fam_goto(tier, rng):
                 else:
                     p = prog([tok(b, "m0"), b.call("P", []), tok(b, "m1")], [sub("P", [], body)])
                 out.append({"fam": "goto-frames:%s/%s/%s" % (k0, mk, where), "prog": p})
+    # leaving a SELECT CASE block (alone, around or inside a FOR) with GOTO: in the main module, in a SUB, and in a
+    # FUNCTION that was called while its caller had an operand pending
+    for nest in (("select",), ("selectelse",), ("select", "for"), ("for", "select"), ("select", "select"), ("while", "select")):
+        for where in ("main", "sub", "fun-operand"):
+            for times in (1, 3):
+                b = B()
+                n = var("N", "I")
+                body = [tok(b, "jump"), b.goto("OUT3")]
+                for lvl, k in enumerate(reversed(nest)):
+                    v = var("K%d" % lvl, "I")
+                    if k == "select":
+                        body = [b.select(n, [([eqt(lit("I", 2))], body)], [tok(b, "else")])]
+                    elif k == "selectelse":
+                        body = [b.select(n, [([eqt(lit("I", 9))], [tok(b, "nine")])], body)]
+                    elif k == "for":
+                        body = [b.for_(v, lit("I", 1), lit("I", 3), None, body, hasstep=False)]
+                    else:
+                        body = [b.let(v, lit("I", 0)), b.while_(bin_("<", v, lit("I", 2)), [b.let(v, bin_("+", v, lit("I", 1)))] + body)]
+                body = body + [tok(b, "skipped"), b.label("OUT3"), tok(b, "landed")]
+                if where == "main":
+                    r = var("RR", "I")
+                    if times == 3:
+                        # the jump happens once per iteration of an enclosing FOR (label inside that FOR)
+                        p = prog([b.let(n, lit("I", 2)), b.for_(r, lit("I", 1), lit("I", 3), None, body, hasstep=False), tok(b, "end", r)])
+                    else:
+                        p = prog([b.let(n, lit("I", 2))] + body + [tok(b, "end")])
+                elif where == "sub":
+                    calls = [b.call("P", [lit("I", 2)]) for _ in range(times)]
+                    p = prog([tok(b, "m0")] + calls + [tok(b, "m1")], [sub("P", [("N", "I")], body)])
+                else:
+                    main = []
+                    for _ in range(times):
+                        fc = fcall("F", "I", [lit("I", 2)], 0)
+                        st = tok(b, "res", bin_("+", lit("I", 1), fc))
+                        fc["sid"] = st["id"]
+                        main.append(st)
+                    p = prog(main + [tok(b, "end")], [fun("F", "I", [("N", "I")], body + [b.let(var("F", "I"), lit("I", 10))])])
+                out.append({"fam": "goto-select:%s/%s/%d" % ("+".join(nest), where, times), "prog": p})
     return out
 
 
